@@ -24,3 +24,5 @@ def run(ctx):
         ctx.coverage["distinct_nontrivial"] = agg.tot.get("fossil", 0)
         ctx.coverage["rule"] = ("GenModel runs with short GVT periods, half of them stopped by a termination time; non-trivial = fossil collection "
                                 "instants at which the released entries were checked to continue the sequential per-LP sequence (c03=ok)")
+    # refinement of the concrete kernel to the abstract global Time Warp machine of the glue theorems, checked on small runs
+    runlib.tw_matrix(ctx, 12, 400, salt=3)
